@@ -266,10 +266,10 @@ func kindOfType(t types.Type) Kind {
 	if t == nil {
 		return KUnit
 	}
-	if _, ok := t.(*types.TypeParam); ok {
-		return KOpaque
-	}
-	if _, ok := types.Unalias(t).(*types.TypeParam); ok {
+	if tp, ok := types.Unalias(t).(*types.TypeParam); ok {
+		if integerTypeParam(tp) {
+			return KInt
+		}
 		return KOpaque
 	}
 	switch u := t.Underlying().(type) {
@@ -311,8 +311,37 @@ func kindOfType(t types.Type) Kind {
 	return KInt
 }
 
+// integerTypeParam: the type parameter's constraint admits integer types only (e.g. ~int | ~int64 | ~uint | ~uint64).
+func integerTypeParam(tp *types.TypeParam) bool {
+	c := tp.Constraint()
+	if c == nil {
+		return false
+	}
+	it, ok := c.Underlying().(*types.Interface)
+	if !ok || it.NumEmbeddeds() == 0 {
+		return false
+	}
+	for i := 0; i < it.NumEmbeddeds(); i++ {
+		u, ok := it.EmbeddedType(i).(*types.Union)
+		if !ok {
+			return false
+		}
+		for j := 0; j < u.Len(); j++ {
+			b, ok := u.Term(j).Type().Underlying().(*types.Basic)
+			if !ok || b.Info()&types.IsInteger == 0 {
+				return false
+			}
+		}
+	}
+	return true
+}
+
 // intRange returns min,max decimal strings for an integer type; ok=false for non-integers.
 func intRange(t types.Type) (string, string, bool) {
+	if tp, ok := types.Unalias(t).(*types.TypeParam); ok && integerTypeParam(tp) {
+		// unknown integer type: the int64/uint64 intersection is the safe range for the non-negative uses in this module
+		return "-9223372036854775808", "9223372036854775807", true
+	}
 	b, ok := t.Underlying().(*types.Basic)
 	if !ok || b.Info()&types.IsInteger == 0 {
 		return "", "", false
